@@ -202,8 +202,18 @@ def true_offsets(data: bytes) -> list[int]:
     return offs
 
 
-def judge(out: dict[str, Any], n_threads: int) -> list[dict[str, Any]]:
-    """Property-level verdicts, independent of the model."""
+def judge(out: dict[str, Any], n_threads: int, slow_holder: bool = False) -> list[dict[str, Any]]:
+    """Property-level verdicts, independent of the model.  `slow_holder`: a live thread was suspended inside its
+    critical section for longer than the grace period, so it lost the lock BY DESIGN: mutual exclusion and a clean
+    `release()` are not demanded then, the integrity of the log (one atomic O_APPEND write per record) still is."""
+    probs = _judge(out, n_threads)
+    if slow_holder:
+        probs = [p for p in probs if p["kind"] not in ("takeover-race", "two-holders")
+                 and not (p["kind"] == "append-raises" and "did not possess lock" in p["why"])]
+    return probs
+
+
+def _judge(out: dict[str, Any], n_threads: int) -> list[dict[str, Any]]:
     probs: list[dict[str, Any]] = []
     path = out["path"]
     crashed = out["crashed"]
@@ -405,6 +415,35 @@ def _worker(args: tuple[str, list[tuple[int, list[Any], int, int | None]], str])
         plan = sysfi.Plan(chunks=chunks)
         # every third case: a busy lock under the hand-over clock (many short holders, one long waiter)
         clock = "handover" if seed % 3 == 0 else "sleepers"
+        slow = seed % 7 == 5
+        if slow:
+            # a live holder suspended inside append_logs for longer than the grace period (single-chunk writes: one
+            # O_APPEND write per record is atomic even when two workers believe they hold the lock)
+            clock, plan = "sleepers", sysfi.Plan(chunks=1)
+            chunks = 1
+            r2 = random.Random(seed)
+            dry = sysfi.Plan(chunks=1)
+            try:
+                out0 = run_file_case(lock_kind, progs, seed, tmp, plan=dry, pct=pct, clock=clock, grace=5, tag="_dry")
+            except Exception:  # noqa: BLE001
+                out0 = {"infra": "dry run failed"}
+            inside = []
+            if "infra" not in out0:
+                k, held = 0, False
+                for t, name in out0["events"]:
+                    if t != 0:
+                        continue
+                    if name in ("symlink", "os.open"):
+                        held = True
+                    elif name == "rename":
+                        held = False
+                    elif held and (name.startswith("open(") or name in ("seek", "read", "write", "flush", "fsync", "close", "truncate")):
+                        inside.append(k)
+                    k += 1
+            if inside:
+                plan.stall = (0, r2.choice(inside), 5 + 3.0)
+            else:
+                slow = False
         try:
             out = run_file_case(lock_kind, progs, seed, tmp, plan=plan, pct=pct, clock=clock, grace=5)
         except Exception as e:  # noqa: BLE001
@@ -414,12 +453,13 @@ def _worker(args: tuple[str, list[tuple[int, list[Any], int, int | None]], str])
         if "infra" in out:
             res.append({"seed": seed, "kind": "infra", "why": out["infra"]})
             continue
-        probs = judge(out, len(progs))
+        probs = judge(out, len(progs), slow_holder=slow)
         reads = [c for c in out["calls"] if c["a"] == "read"]
         apps = [c for c in out["calls"] if c["a"] == "append"]
         overlap = any(rd["inv"] < ap.get("ret", 10**9) and ap["inv"] < rd.get("ret", 10**9) and rd["t"] != ap["t"] for rd in reads for ap in apps)
         res.append({"seed": seed, "kind": "violation" if probs else "ok", "probs": probs, "progs": progs, "chunks": chunks, "pct": pct, "clock": clock,
-                    "trace": out["trace"], "overlap": overlap, "n_events": len(out["events"])})
+                    "trace": out["trace"], "overlap": overlap, "n_events": len(out["events"]), "stall": list(plan.stall) if plan.stall else None,
+                    "stalled_at": plan.stalled_at, "forced": any(ev[0] == "force" for ev in out["locklog"])})
     return res
 
 
@@ -443,12 +483,14 @@ def explore(chk: core.Check, n: int, tag: str = "") -> None:
                 chk.case({"part": "concurrent", "lock": lock_kind, "programs": [[a["a"] for a in p] for p in rec["progs"]], "chunks": rec["chunks"],
                           "syscalls": rec["n_events"], "schedule_len": len(rec["trace"])}, nontrivial=rec["overlap"])
                 chk.count("concurrent%s:%s" % (tag, lock_kind))
+                if rec.get("stall"):
+                    chk.count("slow-holder%s:%s" % (tag, "lock-taken-over-while-stalled" if rec.get("forced") else "stalled"))
                 chk.traces_validated += 1
             elif rec["kind"] == "violation":
                 p = rec["probs"][0]
                 chk.violation({"lock": lock_kind, "kind": p["kind"], "after_crash": False},
                               {"lock": lock_kind, "progs": rec["progs"], "seed": rec["seed"], "chunks": rec["chunks"], "pct": rec["pct"], "schedule": rec["trace"],
-                               "clock": rec.get("clock", "sleepers")},
+                               "clock": rec.get("clock", "sleepers"), "stall": rec.get("stall")},
                               "%s lock: %s" % (lock_kind, "; ".join(x["why"] for x in rec["probs"][:2])))
             else:
                 chk.count("infra")
@@ -485,9 +527,12 @@ def replay(chk: core.Check, path: str) -> int:
     w = json.load(open(path))["witness"]
     if w.get("part") == "lock":
         return c07_lock.replay_case(chk, w)
-    out = run_file_case(w["lock"], w["progs"], w["seed"], chk.tmp, plan=sysfi.Plan(chunks=w.get("chunks", 1)), schedule=w.get("schedule"), pct=w.get("pct"),
+    plan = sysfi.Plan(chunks=w.get("chunks", 1))
+    if w.get("stall"):
+        plan.stall = tuple(w["stall"])  # type: ignore[assignment]
+    out = run_file_case(w["lock"], w["progs"], w["seed"], chk.tmp, plan=plan, schedule=w.get("schedule"), pct=w.get("pct"),
                         clock=w.get("clock", "sleepers"), grace=5)
-    probs = judge(out, len(w["progs"]))
+    probs = judge(out, len(w["progs"]), slow_holder=bool(w.get("stall")))
     if probs:
         print("REPRODUCED: %s" % probs[0]["why"])
         return 1
